@@ -4,6 +4,7 @@ import (
 	"bufio"
 	"context"
 	"encoding/binary"
+	"errors"
 	"io"
 	"io/ioutil"
 	"log"
@@ -50,6 +51,10 @@ func NewChannel(conn net.Conn, msize int) Channel {
 const (
 	defaultRWTimeout = 30 * time.Second // default read/write timeout if not set in context
 )
+
+// errInvalidSize is returned for a frame whose size field is less than the
+// four bytes of the size field itself.
+var errInvalidSize = errors.New("p9p: invalid message size")
 
 // channel provides bidirectional protocol framing for 9p over net.Conn.
 // Operations are not thread-safe but reads and writes may be carried out
@@ -298,6 +303,11 @@ func readmsg(rd io.Reader, p []byte) (n int, err error) {
 
 	n += binary.Size(msize)
 	mbody := int(msize) - 4
+
+	if mbody < 0 {
+		// the size field counts itself: anything below 4 is not a frame.
+		return n, errInvalidSize
+	}
 
 	if mbody < len(p) {
 		p = p[:mbody]
